@@ -23,6 +23,47 @@ type resetExtra struct {
 	P1Export string `json:"p1_export,omitempty"`
 	Variant  string `json:"variant,omitempty"` // "" -> run both; "A" | "B"
 	Refresh  bool   `json:"refresh,omitempty"` // the peers ask with ROUTE-REFRESH instead of an operator soft reset out
+	Edit     *setEdit `json:"edit,omitempty"`  // instead of another assignment: a defined set of the assigned policy is edited in place
+}
+
+// setEdit: members removed from / added to the prefix set or community set of a policy.
+type setEdit struct {
+	Policy string   `json:"policy"`
+	Kind   string   `json:"kind"` // comm | prefix
+	Remove []string `json:"remove,omitempty"`
+	Add    []string `json:"add,omitempty"`
+}
+
+// resetEditedPolicies: variant B (fresh evaluation) creates the sets with their FINAL members.
+func resetEditedPolicies(sc *Script) []PolicyCfg {
+	ex := sc.resetExtra()
+	if ex.Variant != "B" || ex.Edit == nil {
+		return sc.Policies
+	}
+	out := append([]PolicyCfg(nil), sc.Policies...)
+	without := func(l []string, rm []string) []string {
+		var r []string
+		for _, x := range l {
+			if !hasString(rm, x) {
+				r = append(r, x)
+			}
+		}
+		return r
+	}
+	for i := range out {
+		if out[i].Name != ex.Edit.Policy {
+			continue
+		}
+		p := out[i]
+		if ex.Edit.Kind == "prefix" {
+			p.Prefixes = append(without(p.Prefixes, ex.Edit.Remove), ex.Edit.Add...)
+		} else {
+			all := append(without(append([]string{p.Comm}, p.Comms...), ex.Edit.Remove), ex.Edit.Add...)
+			p.Comm, p.Comms = all[0], all[1:]
+		}
+		out[i] = p
+	}
+	return out
 }
 
 func init() {
@@ -120,7 +161,50 @@ func genReset(seed uint64, tier, mode string) *Script {
 		return fmt.Sprintf("pol%d", g.n(4))
 	}
 	ex := resetExtra{}
-	switch g.n(3) {
+	switch g.n(4) {
+	case 3: // the assignment stays, a defined set it uses is edited in place
+		name := "poledit"
+		p := PolicyCfg{Name: name, Action: pick(g, []string{"reject", "reject", "accept"})}
+		ed := &setEdit{Policy: name}
+		if g.p(50) {
+			ed.Kind = "comm"
+			pats := []string{"^65000:1$", "^65000:2$", "^65000:3$"}
+			p.Comm, p.Comms = pats[0], pats[1:1+g.n(2)]
+			if g.p(60) {
+				ed.Remove = []string{pick(g, append([]string{p.Comm}, p.Comms...))}
+				if len(p.Comms) == 0 {
+					p.Comms = []string{pats[2]} // never empty the set
+				}
+			} else {
+				ed.Add = []string{pats[2]}
+			}
+			if p.Action == "accept" {
+				p.SetMED = 55
+			}
+		} else {
+			ed.Kind = "prefix"
+			p.Prefixes = []string{pool[0], pool[1], pool[2]}
+			if g.p(60) {
+				ed.Remove = []string{pick(g, p.Prefixes)}
+			} else {
+				ed.Add = []string{pool[4]}
+			}
+			if p.Action == "accept" {
+				p.SetLP = 300
+			}
+		}
+		sc.Policies = append(sc.Policies, p)
+		ex.Edit = ed
+		if g.p(50) {
+			ex.P0Import, ex.P1Import = name, name
+			ex.P0Export = pickPol()
+			ex.P1Export = ex.P0Export
+		} else {
+			ex.P0Export, ex.P1Export = name, name
+			ex.P0Import = pickPol()
+			ex.P1Import = ex.P0Import
+			ex.Refresh = g.p(30)
+		}
 	case 0: // import changes
 		ex.P0Import, ex.P1Import = pickPol(), pickPol()
 		ex.P0Export = pickPol()
@@ -207,6 +291,10 @@ func genReset(seed uint64, tier, mode string) *Script {
 func (w *simWorld) resetAll(ex resetExtra) {
 	imp := ex.P0Import != ex.P1Import
 	exp := ex.P0Export != ex.P1Export
+	if ex.Edit != nil {
+		imp = imp || ex.P1Import == ex.Edit.Policy
+		exp = exp || ex.P1Export == ex.Edit.Policy
+	}
 	if exp && ex.Refresh {
 		// the peers ask themselves
 		for _, p := range w.peers {
@@ -241,6 +329,12 @@ func resetOp(w *simWorld, actor int, op *Op) {
 		}
 		if err := w.assignPolicy("export", st.ex.P1Export); err != nil {
 			w.harnessError("assign export: %v", err)
+		}
+		if st.ex.Edit != nil {
+			if err := w.editDefinedSet(st.ex.Edit); err != nil {
+				w.harnessError("edit defined set: %v", err)
+			}
+			w.probe("defined_set_edited_" + st.ex.Edit.Kind)
 		}
 		w.resetAll(st.ex)
 		st.switched = true
